@@ -159,14 +159,16 @@ class FQ:
         return self.__rdiv__(other)
 
     def __pow__(self: T_FQ, other: int) -> T_FQ:
-        if other == 0:
-            return type(self)(1)
-        elif other == 1:
-            return type(self)(self.n)
-        elif other % 2 == 0:
-            return (self * self) ** (other // 2)
-        else:
-            return ((self * self) ** int(other // 2)) * self
+        # Iterative square-and-multiply: recursing through ``**`` costs one level of
+        # the interpreter's C stack per exponent bit and fails for large exponents.
+        o = type(self)(1)
+        t = self
+        while other > 0:
+            if other & 1:
+                o = o * t
+            other >>= 1
+            t = t * t
+        return o
 
     def __eq__(self: T_FQ, other: Any) -> bool:
         if isinstance(other, FQ):
